@@ -110,6 +110,18 @@ def _clim_inputs():
     return ClimateNetwork(families._grid(), S, threshold=0.4, silence_level=3), {"similarity_measure": S}
 
 
+def _edgeless_inputs():
+    """A network WITHOUT links (four nodes) that nevertheless carries a link attribute: every path query is
+    about unreachable pairs only."""
+    from pyunicorn.core import Network
+    A = V(np.zeros((4, 4), dtype=int))
+    w = V(np.array([1.0, 2.0, 1.5, 0.5]))
+    la = V(np.zeros((4, 4)))
+    net = Network(adjacency=A, node_weights=w, silence_level=3)
+    net.set_link_attribute("w", la)
+    return net, {"adjacency": A, "node_weights": w, "link_attribute": la}
+
+
 def _geo_inputs():
     """GeoNetwork on caller-owned coordinates (no node on the equator / zero meridian) with a link attribute."""
     from pyunicorn.core import GeoGrid, GeoNetwork
@@ -256,6 +268,8 @@ TARGETS = {
                           _fam_calls("interacting", {"A": 1, "W": 1, "LA": 1})),
     "interacting_disc": Target("interacting_disc", lambda: _net_inputs(False, 2, _inter_cls()),
                                _fam_names("interacting"), _fam_calls("interacting", {"A": 2, "W": 1, "LA": 1})),
+    "network_edgeless": Target("network_edgeless", _edgeless_inputs, _fam_names("network"),
+                               _fam_calls("network", {"A": 1, "W": 1, "LA": 1})),
     "geonetwork": Target("geonetwork", _geo_inputs, _fam_names("geonetwork"), _fam_calls("geonetwork", {"LA": 1})),
     "rp": Target("rp", lambda: _rp_inputs("RecurrencePlot"), _fam_names("rp"), _fam_calls("rp", {})),
     "rn": Target("rn", lambda: _rp_inputs("RecurrenceNetwork"), _fam_names("rn"), _fam_calls("rn", {})),
@@ -614,7 +628,7 @@ def _rebuild(target, inputs):
     from pyunicorn.core import Network, ResNetwork
     from pyunicorn.climate import ClimateNetwork
     kw = dict(silence_level=3)
-    if target in ("network", "dirnetwork", "network_disc", "interacting", "interacting_disc"):
+    if target in ("network", "dirnetwork", "network_disc", "interacting", "interacting_disc", "network_edgeless"):
         if target.startswith("interacting"):
             Network = _inter_cls()
         net = Network(adjacency=inputs["adjacency"], directed=(target == "dirnetwork"),
@@ -722,7 +736,7 @@ def _nontrivial(rec):
     return rec.get("skip") == 0 and len(rec["after"]) >= 2
 
 
-QUICK_TARGETS = ["network", "geonetwork", "rp", "rn", "jrp", "surrogates", "climate", "resnetwork", "tsonis", "mutualinfo",
+QUICK_TARGETS = ["network", "network_edgeless", "geonetwork", "rp", "rn", "jrp", "surrogates", "climate", "resnetwork", "tsonis", "mutualinfo",
                  "spearman", "isrn", "eventseries", "interacting_disc", "havlin", "hilbert", "partialcorr",
                  "mutualinfo_anom", "spearman_anom", "tsonis_anom", "havlin_anom", "ccn", "escn"]
 
